@@ -15,11 +15,11 @@ import (
 func init() {
 	register(&PropDef{
 		ID: "C09", Level: "fault_enumeration", Quick: 12500, Thorough: 250000, QuickCap: 100,
-		Rule: "two sub-workloads. restart: a sequential program (uploads by every protocol, patches, deletes, compose, copy, bucket creation) on the file store with a new emulator instance on the same directory after EVERY request (a kill between requests; pending resumable uploads die), comparing every bucket, object, content, metadata, generation and metageneration through HTTP with what was acknowledged; content files without a metadata sidecar are planted into the directory and must be served, then patched, copied and deleted like any object, the outcome surviving another restart. differential: one tape of pre-drawn operation records executed against a memory-store world and a file-store world (names representable as files); normalised response traces (status, metadata with generations replaced by their rank of first appearance, body hashes, listings) must be identical; every third differential run adds the memory store behind a real net/http server on a loopback socket, whose trace must equal the recorder stub's (transport fidelity); distinct = hash of (sub-workload, shapes); non-trivial = at least 3 requests",
-		Real: []string{"gcsemu filestore (Add: content, forced mtime, sidecar; UpdateMeta; Delete; ReadMeta; Walk), memstore, all handlers"},
-		Stub: []string{"process kill between requests = the GcsEmu value is dropped and rebuilt with NewFileStore(sameDir)", "wall clock (simulator-owned)"},
+		Rule:   "two sub-workloads. restart: a sequential program (uploads by every protocol, patches, deletes, compose, copy, bucket creation) on the file store with a new emulator instance on the same directory after EVERY request (a kill between requests; pending resumable uploads die), comparing every bucket, object, content, metadata, generation and metageneration through HTTP with what was acknowledged; content files without a metadata sidecar are planted into the directory and must be served, then patched, copied and deleted like any object, the outcome surviving another restart. differential: one tape of pre-drawn operation records executed against a memory-store world and a file-store world (names representable as files); normalised response traces (status, metadata with generations replaced by their rank of first appearance, body hashes, listings) must be identical; every third differential run adds the memory store behind a real net/http server on a loopback socket, whose trace must equal the recorder stub's (transport fidelity); distinct = hash of (sub-workload, shapes); non-trivial = at least 3 requests",
+		Real:   []string{"gcsemu filestore (Add: content, forced mtime, sidecar; UpdateMeta; Delete; ReadMeta; Walk), memstore, all handlers"},
+		Stub:   []string{"process kill between requests = the GcsEmu value is dropped and rebuilt with NewFileStore(sameDir)", "wall clock (simulator-owned)"},
 		Assume: []string{"a kill between requests (the property's wording), not inside one", "timestamps and concrete generation numbers are not compared across stores"},
-		Run: runC09,
+		Run:    runC09,
 	})
 	expectedProbes["C09"] = []string{"gcs.restart", "c09.planted_file_served", "c09.planted_file_patched_copied_deleted", "c09.differential_equal", "c09.differential_listing", "c09.real_http_transport"}
 }
